@@ -1,6 +1,6 @@
 (** C03 -- wire codec lossless, matches the SCION format, never truncates silently:
     property theorems only. *)
-From Sci Require Import Wire.Codec Wire.Spec_C03 Wire.Proofs_C03 Wire.BitFieldProofs Wire.ChecksumProofs Wire.RoundTripProofs Wire.ChecksumVerify Wire.LengthProofs Wire.SpecAgreeProofs Wire.EncodeLengthProofs Wire.AddrRoundTrip Wire.HeaderRoundTrip Wire.PacketRoundTrip Wire.StdPathRoundTrip Wire.PacketRoundTripStd.
+From Sci Require Import Wire.Codec Wire.Spec_C03 Wire.Proofs_C03 Wire.BitFieldProofs Wire.ChecksumProofs Wire.RoundTripProofs Wire.ChecksumVerify Wire.LengthProofs Wire.SpecAgreeProofs Wire.EncodeLengthProofs Wire.AddrRoundTrip Wire.HeaderRoundTrip Wire.PacketRoundTrip Wire.StdPathRoundTrip Wire.PacketRoundTripStd Wire.ScmpRoundTrip Wire.PacketRoundTripAll.
 Local Open Scope N_scope.
 
 (** A model that cannot be represented on the wire is rejected: whenever the encoder's gate
@@ -119,8 +119,8 @@ Print Assumptions filled_checksum_verifies.
 
     Each layer: the encoder's field writes (in its write order, into ANY well-formed buffer of
     the layer's size, zeroed or not) followed by the decoder's view accessors give back the
-    model, and the buffer keeps its length.  The composed statements are [decode_encode_header_partial] and [decode_encode_partial] (whole
-    raw / UDP packets over standard, empty and unsupported-type paths); for one-hop paths and SCMP what is missing is the placement of the layers inside the header
+    model, and the buffer keeps its length.  The composed statements are [decode_encode_header] and [decode_encode] (whole packets);
+    in the layer lemmas themselves what is left out is the placement of the layers inside the header
     buffer (on_suffix / on_sub offsets of address header, path meta, info and hop fields),
     the address header (ISD-AS split into two writes, host address copies) and the SCMP
     messages; these are decided by the correspondence check (model bytes = implementation
@@ -291,49 +291,29 @@ Proof. exact address_header_roundtrip_lemma. Qed.
 Print Assumptions decode_encode_address_header_layer.
 
 (** Composition, header: the whole SCION header written by [encode_header] -- common header,
-    address header (every accepted address kind), path -- decodes back to the model, for the
-    standard path (1..3 segments, every accepted hop count; the encoder's and the decoder's
-    loops over the info / hop field arrays), the empty path and unsupported path types.
-    PARTIAL: the one-hop path (its three fixed sub-fields are proved as layers) is not composed. *)
-Theorem decode_encode_header_partial :
+    address header (every accepted address kind), path (standard with 1..3 segments and every
+    accepted hop count, one-hop, empty, unsupported types) -- decodes back to the model. *)
+Theorem decode_encode_header :
   forall (h : pkt_hdr) (psize : N),
     header_wf h = true -> header_wire_valid h = true -> psize < 65536 ->
-    (match h_path h with DP_OneHop _ _ _ => False | _ => True end) ->
     decode_header (encode_header h psize (zeros (header_size h))) = Ok h.
-Proof.
-  intros h psize W V Hp Hk. destruct (h_path h) as [ci ch segs|i a b| |pt d] eqn:E.
-  - exact (proj1 (header_roundtrip_std h psize ci ch segs W V Hp E)).
-  - destruct Hk.
-  - apply header_roundtrip_simple_paths; try assumption. rewrite E. exact I.
-  - apply header_roundtrip_simple_paths; try assumption. rewrite E. exact I.
-Qed.
-Print Assumptions decode_encode_header_partial.
+Proof. exact header_roundtrip_all. Qed.
+Print Assumptions decode_encode_header.
 
-(** Composition, packet -- the round trip of the property: for every accepted raw or UDP packet
-    over a standard, empty or unsupported-type path, the decoder applied to the encoder's
-    bytes returns exactly the model and no trailing bytes: constructor (header layout from the
-    bytes, sizes), header with addresses and path, payload, UDP datagram with its length and
-    checksum fields; both memory alignments of the checksummed data.
-    PARTIAL: one-hop paths and SCMP payloads are covered layer by layer (decode_encode_*_layer,
-    encode_length, length_fields_truthful, encoded_*checksum_verifies) and by the correspondence
-    check, not by this composed statement. *)
-Theorem decode_encode_partial :
+(** THE ROUND TRIP of the property: for EVERY packet model the encoder accepts (Rust-typed
+    fields; every address kind; standard / one-hop / empty / unsupported path; raw, UDP and all
+    ten SCMP payload kinds; both memory alignments of the checksummed data) the decoder applied
+    to the encoder's bytes returns the model and no trailing bytes: constructor (header layout
+    recomputed from the bytes, sizes), header, path loops, payload, L4 header with its length
+    and checksum fields.  [canon] is the identity except that an SCMP error's quote is cut to
+    the 1232-byte budget (documented behaviour). *)
+Theorem decode_encode :
   forall (p : packet) (al_host al : bool),
     model_wf p = true -> packet_wire_valid p = true ->
-    (match h_path (p_hdr p) with DP_OneHop _ _ _ => False | _ => True end) ->
-    match p_pl p with
-    | PL_Raw _ => decode_packet 0 (encode_packet_al p al_host al) = Ok (p, [])
-    | PL_Udp _ _ _ => decode_packet 1 (encode_packet_al p al_host al) = Ok (p, [])
-    | PL_Scmp _ => True
-    end.
-Proof.
-  intros p alh al W V Hk. destruct (h_path (p_hdr p)) as [ci ch segs|i a b| |pt d] eqn:E.
-  - exact (packet_roundtrip_std p alh al ci ch segs W V E).
-  - destruct Hk.
-  - apply packet_roundtrip_simple; try assumption. rewrite E. exact I.
-  - apply packet_roundtrip_simple; try assumption. rewrite E. exact I.
-Qed.
-Print Assumptions decode_encode_partial.
+    let kind := match p_pl p with PL_Raw _ => 0 | PL_Udp _ _ _ => 1 | PL_Scmp _ => 2 end in
+    decode_packet kind (encode_packet_al p al_host al) = Ok (canon p (header_size (p_hdr p)), []).
+Proof. exact packet_roundtrip_full. Qed.
+Print Assumptions decode_encode.
 
 (** non-vacuity: a UDP packet over a two-segment standard path between an IPv4 and a service address *)
 Example decode_encode_example :
